@@ -162,7 +162,7 @@ def build_layer(ms, tables):
                     kw[kk] = r[k]
             model.relationships.append(Relationship(**kw))
         layer.add_model(model)
-    layer.conn.execute("SET TimeZone='UTC'")
+    layer.conn.execute("SET TimeZone='UTC'"); layer.conn.execute("SET threads=1"); layer.conn.execute("SET disabled_optimizers='statistics_propagation'")
     for t, tab in tables.items():
         S.load_table(layer.conn, t, tab, TYPES)
     return layer
